@@ -16,6 +16,7 @@
 from __future__ import annotations
 
 import argparse
+import copy
 import json
 import re
 import sys
@@ -631,6 +632,16 @@ def _run(args: argparse.Namespace) -> int:
         config["run_space"] = run_space_block
         run_space_override = True
 
+    # The run-space spec ID is the RSCF v1 hash of the *declared* run_space block,
+    # exactly what `semantiva inspect` hashes. Capture it before the max-runs /
+    # dry-run switches (execution controls, not part of the plan) are merged in.
+    declared_run_space: Dict[str, Any] | None = None
+    declared_candidate = config.get("run_space")
+    if declared_candidate is None and isinstance(config.get("pipeline"), dict):
+        declared_candidate = config["pipeline"].get("run_space")
+    if isinstance(declared_candidate, dict):
+        declared_run_space = copy.deepcopy(declared_candidate)
+
     if args.run_space_max_runs is not None or args.run_space_dry_run:
         run_space_section = config.setdefault("run_space", {})
         if not isinstance(run_space_section, dict):
@@ -800,7 +811,11 @@ def _run(args: argparse.Namespace) -> int:
             print("run-space attempt must be >= 1", file=sys.stderr)
             return EXIT_CONFIG_ERROR
         try:
-            run_space_spec_dict = asdict(pipeline_cfg.run_space)
+            run_space_spec_dict = (
+                declared_run_space
+                if declared_run_space is not None
+                else asdict(pipeline_cfg.run_space)
+            )
             base_dir = pipeline_cfg.base_dir or pipeline_path.parent
             identity_service = RunSpaceIdentityService()
             run_space_ids = identity_service.compute(
